@@ -2529,6 +2529,14 @@ pub fn count() -> impl Function {
     ))
 }
 
+/// The possible numbers of distinct values in a list whose length is in `size`: from 1 (0 for an empty list) to the length
+fn distinct_size(size: data_type::Integer) -> data_type::Integer {
+    match (size.min(), size.max()) {
+        (Some(&min), Some(&max)) => data_type::Integer::from_interval(min.clamp(0, 1), max.max(0)),
+        _ => size,
+    }
+}
+
 /// Count distinct aggregation
 pub fn count_distinct() -> impl Function {
     Polymorphic::from((
@@ -2536,7 +2544,8 @@ pub fn count_distinct() -> impl Function {
         Aggregate::from(
             DataType::Any,
             |values| (values.iter().cloned().collect::<HashSet<_>>().len() as i64).into(),
-            |(_dt, size)| Ok(size),
+            // n values have between 1 (0 when n = 0) and n distinct values
+            |(_dt, size)| Ok(distinct_size(size)),
         ),
         // Optional implementation
         Aggregate::from(
@@ -2671,7 +2680,10 @@ pub fn sum_distinct() -> impl Function {
             },
             |(intervals, size)| {
                 Ok(data_type::Integer::try_from(multiply().super_image(
-                    &DataType::structured_from_data_types([intervals.into(), size.into()]),
+                    &DataType::structured_from_data_types([
+                        intervals.into(),
+                        distinct_size(size).into(),
+                    ]),
                 )?)?)
             },
         ),
@@ -2690,7 +2702,10 @@ pub fn sum_distinct() -> impl Function {
             },
             |(intervals, size)| {
                 Ok(data_type::Float::try_from(multiply().super_image(
-                    &DataType::structured_from_data_types([intervals.into(), size.into()]),
+                    &DataType::structured_from_data_types([
+                        intervals.into(),
+                        distinct_size(size).into(),
+                    ]),
                 )?)?)
             },
         ),
